@@ -45,6 +45,12 @@ def cases(tier, seed):
             deep.append((d, R.choice([0, (1 << d) - 1, R.randrange(1 << d)]), R.randrange(1 << d)))
         for i in range(0, nd, 10):
             out.append(dict(cs=cs, positions=deep[i:i + 10], nsub=40 if tier == "quick" else 200, seed=R.randrange(1 << 30), route=R.choice(["single", "point"])))
+    # the grids actually handed to a sampler by the real sampling entry points, incl. the single level-0 tile (which has no
+    # Tile object: its pixel grid is only observable through sampling)
+    for cs in ("astronomical", "planetary"):
+        for entry in ("sample_layer", "sample_layer_filtered", "toast_base"):
+            for depth in (0, 1) if tier == "quick" else (0, 1, 2):
+                out.append(dict(t="sampler_grid", cs=cs, entry=entry, depth=depth, seed=R.randrange(1 << 30)))
     if tier == "thorough":
         out.append(dict(t="sanitizer", _timeout=900))
     return out
@@ -97,9 +103,61 @@ def check_tile(t, pl, cs, R, nsub, probs):
             probs.append("%s: pixel (%d,%d) is not nearest to the %s corner" % (p, i, j, name))
 
 
+def case_sampler_grid(spec, workdir):
+    from toasty import toast
+    from toasty.builder import Builder
+    from toasty.pyramid import PyramidIO
+    from toasty.toast import ToastCoordinateSystem as CS
+
+    pl = spec["cs"] == "planetary"
+    cs = CS.PLANETARY if pl else CS.ASTRONOMICAL
+    depth = spec["depth"]
+    grids = []
+
+    def recorder(lon, lat):
+        grids.append((np.array(lon), np.array(lat)))
+        return np.zeros(lon.shape, np.float32)
+
+    pio = PyramidIO(os.path.join(workdir, "p"), default_format="npy")
+    if spec["entry"] == "sample_layer":
+        toast.sample_layer(pio, recorder, depth, coordsys=cs, parallel=1)
+    elif spec["entry"] == "sample_layer_filtered":
+        toast.sample_layer_filtered(pio, lambda t: True, recorder, depth, coordsys=cs, parallel=1)
+    else:
+        Builder(pio).toast_base(recorder, depth, is_planet=pl, parallel=1, tile_filter=(lambda t: True))
+    probs = []
+    if len(grids) != 4 ** depth:
+        probs.append("%s depth %d: sampler called %d times, expected %d" % (spec["entry"], depth, len(grids), 4 ** depth))
+    # every handed grid must be the centres, eight levels deeper, of exactly one tile of this layer
+    V, inc = rt.vertex_grid(depth + 8, pl)
+    a, b, c, d = V[:-1, :-1], V[:-1, 1:], V[1:, :-1], V[1:, 1:]
+    cen = np.where(inc[..., None], rt.unit(c + b), rt.unit(a + d))
+    seen = set()
+    for (lon, lat) in grids:
+        G = rt.xyz(lon, lat)
+        # which tile? locate by the first pixel
+        dist = np.abs(cen[::256, ::256] - G[0, 0]).max(axis=-1)
+        y, x = np.unravel_index(np.argmin(dist), dist.shape)
+        ref = cen[256 * y:256 * y + 256, 256 * x:256 * x + 256]
+        dd = np.abs(G - ref).max()
+        if dd > TOL:
+            probs.append("%s %s depth %d: the grid handed to the sampler for tile (%d,%d,%d) differs from the centres of the tiles eight levels deeper by %.3g" % (
+                spec["entry"], spec["cs"], depth, depth, x, y, dd))
+        seen.add((x, y))
+    if len(seen) != len(grids):
+        probs.append("%s: two sampler calls were handed the same tile's grid" % spec["entry"])
+    r = dict(counters=dict(sampler_grids_checked=len(grids), pixels_compared=65536 * len(grids), **{"sampler_grid_depth_%d" % depth: 1}), nontrivial=True,
+             sample=dict(spec=spec, grids=len(grids)))
+    if probs:
+        r.update(status="violation", key="sampler-grid:" + spec["cs"] + (":depth0" if depth == 0 else ""), detail="; ".join(probs[:4]))
+    return r
+
+
 def run_case(spec, workdir):
     if spec.get("t") == "sanitizer":
         return sanitizer_lane(workdir)
+    if spec.get("t") == "sampler_grid":
+        return case_sampler_grid(spec, workdir)
     from toasty import toast
     from toasty.pyramid import Pos
     from toasty.toast import ToastCoordinateSystem as CS
